@@ -131,6 +131,14 @@ ZERO_IDIOM = re.compile(r"^(xor|sub|pxor|vpxor|xorps|xorpd|vxorps|vxorpd|pcmpeq[
 
 
 class Kernel:
+    _ar = None
+
+    def address_regs(self):
+        """registers that appear as base or index of a memory operand anywhere in the kernel"""
+        if self._ar is None:
+            self._ar = {m[k]["top"] for i in self.insts.values() for m in i.get("mem", []) for k in ("base", "index") if k in m}
+        return self._ar
+
     def __init__(self, src, dec):
         self.src, self.dec = src, dec
         self.text = [s for s in dec["sections"] if s["text"] and s.get("insts")]
@@ -199,6 +207,9 @@ class Kernel:
         return None
 
 
+MASK = ("D", 64, "M")
+
+
 def join_val(a, b):
     if a == b:
         return a
@@ -234,17 +245,21 @@ class AbiAnalysis:
             regs[r] = ("C", r)
         regs["rsp"] = ("SP", 0)
         return dict(regs=regs, vec={}, fl={"C": False, "O": False, "Z": False}, df=False, stack={}, bad_sp=False,
-                    af=frozenset(ARG_REGS[:self.arity]))      # argument registers that may still hold the caller's argument
+                    af=frozenset(ARG_REGS[:self.arity]),      # argument registers that may still hold the caller's argument
+                    cfp=frozenset())                          # instructions whose carry flag may be the current CF
 
     @staticmethod
     def copy(st):
         return dict(regs=dict(st["regs"]), vec=dict(st["vec"]), fl=dict(st["fl"]), df=st["df"], stack=dict(st["stack"]), bad_sp=st["bad_sp"],
-                    af=st.get("af", frozenset()))
+                    af=st.get("af", frozenset()), cfp=st.get("cfp", frozenset()))
 
     def join(self, a, b, at):
         ch = False
         if not b.get("af", frozenset()) <= a.get("af", frozenset()):
             a["af"] = a.get("af", frozenset()) | b["af"]
+            ch = True
+        if not b.get("cfp", frozenset()) <= a.get("cfp", frozenset()):
+            a["cfp"] = a.get("cfp", frozenset()) | b["cfp"]
             ch = True
         for r in GPR:
             if r == "rsp":
@@ -334,6 +349,7 @@ class AbiAnalysis:
         self.stats["instructions"] += 1
         if op.startswith("NOOP") or mn.startswith("nop"):
             return                        # multi-byte NOP: its memory operand is padding, nothing is read
+        pre_vals = dict(st["regs"])
         # which arguments does the kernel look at?  (syntactic: any read of a register that may still hold the argument)
         af = st.get("af", frozenset())
         if af:
@@ -456,8 +472,26 @@ class AbiAnalysis:
                     self.stats["unmodelled_rsp_updates"] += 1
                 else:
                     self.def_reg(st, x)
+        if "C" in rd and (re.match(r"^(adc|sbb|rcl|rcr)[bwlq]?$", mn) or mn.startswith("adcx")) and not sbb_self:
+            for (pa, sus) in st.get("cfp", ()):
+                if sus:
+                    pi = self.k.insts.get(pa, {})
+                    self.rep(a, "carry-from-address-arithmetic:%s" % sus,
+                             "the carry consumed here may come from `%s` at +0x%x, which adds a constant to %s - a register this kernel uses to "
+                             "address memory (a loop index or pointer), not a saved-carry mask: the limb carry chain is broken (inc / dec / lea "
+                             "leave CF alone)" % (pi.get("t", "").replace("\t", " "), pa - self.addr, sus))
         for g in wr:
             st["fl"][g] = True
+        if "C" in wr:
+            sus = None
+            if re.match(r"^(add|sub)[bwlq]?$", mn) and ins.get("imm") is not None and ins["defs"] and not mems:
+                dst = ins["defs"][0]["top"]
+                if dst in GPR and dst in self.k.address_regs() and pre_vals.get(dst, U) != MASK:
+                    sus = dst
+            st["cfp"] = frozenset([(a, sus)])
+        # sbb r,r / xor r,r leave a saved-carry mask (0 or -1; 0 is the mask of "no carry"): add $1,r / neg r / shr r turn it back into CF
+        if (same or sbb_self) and ins["defs"] and ins["defs"][0]["top"] in GPR:
+            st["regs"][ins["defs"][0]["top"]] = MASK
         if mn == "std":
             st["df"] = True
         elif mn == "cld":
